@@ -94,11 +94,46 @@ let run_dstring spec line =
         Buffer.contents buf
     end
 
+(* ---------- pool *)
+let pool_state (st : pstate) =
+  let (hp, sl, rem) = match st.pool with
+    | None -> (0, -1, -1)
+    | Some pd -> (1, List.length pd.slabs, (match pd.nxt with Some (_, i) -> 1024 - int_of_n i | None -> -1)) in
+  Printf.sprintf "%d %d %d %d" (int_of_z st.count) hp sl rem
+
+let run_pool line =
+  let ops = split_on ' ' line in
+  let st = ref pinit in
+  let buf = Buffer.create 256 in
+  (try List.iteri (fun i o ->
+    if i > 0 then Buffer.add_string buf " | ";
+    let k = o.[0] and n = if String.length o > 1 then int_of_string (String.sub o 1 (String.length o - 1)) else 0 in
+    let step1 op = match pstep !st op with
+      | Err e -> Buffer.add_string buf ("ERR " ^ err_name e); raise Exit
+      | Ok (s', r) -> st := s'; r in
+    match k with
+    | 'I' -> ignore (step1 PInit); Buffer.add_string buf (pool_state !st)
+    | 'D' -> ignore (step1 PDrain); Buffer.add_string buf (pool_state !st ^ " 1")
+    | 'F' -> ignore (step1 PFree); Buffer.add_string buf (pool_state !st)
+    | 'A' ->
+      let first = ref (-1) and last = ref (-1) and news = ref 0 and ok = ref 1 in
+      for j = 0 to n - 1 do
+        match step1 PAlloc with
+        | Some (_, i) -> let i = int_of_n i in
+          if i = 0 then incr news; if j = 0 then first := i; last := i
+        | None -> ok := 0
+      done;
+      Buffer.add_string buf (Printf.sprintf "%s %d %d %d %d" (pool_state !st) !first !last !news !ok)
+    | _ -> failwith "bad pool op") ops
+  with Exit -> ());
+  Buffer.contents buf
+
 let () =
   let model = Sys.argv.(1) in
   let f = match model with
     | "dstring" -> run_dstring false
     | "dstring-spec" -> run_dstring true
+    | "pool" -> run_pool
     | _ -> failwith "unknown model" in
   try while true do
     let line = input_line stdin in
